@@ -2,7 +2,9 @@
  * current /repo working tree) and prints one canonical result line per call, in the format of ml/c16_driver.ml.
  *   class: ok | oob (parameter_outOfBound) | unsup (parameter_unsupported) | stage (stage_wrong) | err (any other error)
  * Calls whose precondition does not hold on the real object (would need huge allocations, stable-buffer modes, ...)
- * are not executed: the line is "skip" and the python driver turns the op into a no-op for the model. */
+ * are not executed: the line is "skip" and the python driver turns the op into a no-op for the model.
+ * Round 2: composite setters, ZSTD_CCtx_setPledgedSrcSize, applied parameters (cctx->appliedParams, mtctx->params),
+ * which dictionary a produced frame used (header + decodability), decoder-side dictionary calls. */
 #define ZDICT_STATIC_LINKING_ONLY
 #include "compress/zstd_compress.c"
 #include "zdict.h"
@@ -13,6 +15,17 @@
 int c16_d_stage(const ZSTD_DCtx* d);
 int c16_d_hasdict(const ZSTD_DCtx* d);
 unsigned long long c16_d_maxwin(const ZSTD_DCtx* d);
+/* round 2 (c16_dint.c / c16_mtint.c) */
+int c16_d_dictuses(const ZSTD_DCtx* d);                  /* 0 dont_use, 1 use_once, 2 use_indefinitely */
+int c16_d_ddict_is_local(const ZSTD_DCtx* d);            /* ddict == ddictLocal (and not NULL) */
+const void* c16_d_ddict(const ZSTD_DCtx* d);             /* dctx->ddict */
+const void* c16_d_ddict_content(const ZSTD_DCtx* d);     /* content pointer of dctx->ddict, NULL without one */
+size_t c16_d_ddict_size(const ZSTD_DCtx* d);
+int c16_d_set_allocated(const ZSTD_DCtx* d);
+int c16_d_set_has(const ZSTD_DCtx* d, unsigned dictID);
+unsigned c16_d_lastid(const ZSTD_DCtx* d);               /* dictID of the last frame header parsed (dctx->fParams.dictID) */
+size_t c16_d_sizeof(void);
+int c16_mt_params(const ZSTDMT_CCtx* mt, int* level, unsigned cp[7]);
 
 #define MAXIDS 128
 static int cids[MAXIDS], ncids = 0, dids[MAXIDS], ndids = 0;
@@ -28,6 +41,16 @@ static ZSTD_CDict* cdict; static ZSTD_DDict* ddict;
 static unsigned char F[2][256]; static size_t Fsize[2];            /* a small valid frame in format 0 / 1 */
 static int dbegan[2];
 static unsigned char G[5][8192]; static size_t Gsize[5];          /* frames for the decoder-side effect checks */
+/* round 2: a second dictionary, two prefixes, frames that need each of them; index 1 = the dictionary above, 2 = the second one */
+static unsigned char dictBuf2[1 << 14]; static size_t dictSize2;
+static const unsigned char* DICT[3]; static size_t DICTSZ[3]; static unsigned DICTID[3];
+static ZSTD_CDict* CDICT[3]; static ZSTD_DDict* DDICT[3];
+static unsigned char PFX[3][1000];
+static unsigned char FD[5][2048]; static size_t FDsize[5];       /* 0 plain, 1 dictionary 1, 2 dictionary 2, 3 prefix 1, 4 prefix 2 */
+static size_t fedBytes[2]; static int broken[2];
+static unsigned char* lastFrame[2]; static size_t lastSize[2]; static size_t lastSrcKind[2]; static size_t lastSrcLen[2]; static int haveLast[2];
+static unsigned char* expectBuf; static unsigned char* decBuf;
+static ZSTD_DCtx* UD;                                            /* decoder used to find out what a produced frame needs */
 
 static const char* cls(size_t r) {
     if (!ZSTD_isError(r)) return "ok";
@@ -51,9 +74,10 @@ static void fresh(void) {
     C[1] = ZSTD_initStaticCCtx(cws, cwsSize);
     P = ZSTD_createCCtxParams();
     D[0] = ZSTD_createDCtx();
+    memset(dws, 0, c16_d_sizeof());  /* ZSTD_initStaticDCtx leaves customMem and fParams of the context as they are */
     D[1] = ZSTD_initStaticDCtx(dws, dwsSize);
     if (!C[0] || !C[1] || !P || !D[0] || !D[1]) die("object creation failed");
-    for (i = 0; i < 2; i++) { soutPos[i] = 0; dbegan[i] = 0; }
+    for (i = 0; i < 2; i++) { soutPos[i] = 0; dbegan[i] = 0; fedBytes[i] = 0; broken[i] = 0; haveLast[i] = 0; }
 }
 
 static int cgetv(ZSTD_CCtx* c, ZSTD_cParameter p) { int v = 0; if (ZSTD_isError(ZSTD_CCtx_getParameter(c, p, &v))) return 0; return v; }
@@ -79,6 +103,14 @@ static int cdictcode(ZSTD_CCtx* c) {
     if (c->prefixDict.dict) return 4;
     return 0;
 }
+/* which of the two test dictionaries / prefixes the context holds: 1, 2, 0 = none, 9 = something else */
+static int cdictwhich(ZSTD_CCtx* c) {
+    int k;
+    if (c->localDict.dict) { for (k = 1; k <= 2; k++) if (c->localDict.dictSize == DICTSZ[k] && !memcmp(c->localDict.dict, DICT[k], DICTSZ[k])) return k; return 9; }
+    if (c->cdict) { for (k = 1; k <= 2; k++) if (c->cdict == CDICT[k]) return k; return 9; }
+    if (c->prefixDict.dict) { for (k = 1; k <= 2; k++) if (c->prefixDict.dict == (const void*)PFX[k]) return k; return 9; }
+    return 0;
+}
 
 /* frame header fields of a finished frame: checksum flag, content size present, dictID present, magicless */
 static void print_hdr(const char* k, const unsigned char* f, size_t n) {
@@ -88,25 +120,67 @@ static void print_hdr(const char* k, const unsigned char* f, size_t n) {
     printf("%s %d %d %d %d\n", k, (int)h.checksumFlag, h.frameContentSize != ZSTD_CONTENTSIZE_UNKNOWN, h.dictID != 0, magicless);
 }
 
+/* remember the frame a context produced: kind 0 = n copies of srcA, 1 = srcB[0..len) */
+static void remember(int o, const unsigned char* f, size_t n, int kind, size_t len) {
+    if (n > outCap) return;
+    memcpy(lastFrame[o], f, n); lastSize[o] = n; lastSrcKind[o] = (size_t)kind; lastSrcLen[o] = len; haveLast[o] = 1;
+}
+static int dictidx(unsigned id) { return id == 0 ? 0 : id == DICTID[1] ? 1 : id == DICTID[2] ? 2 : 9; }
+
+/* does `f` decode to `want` with: 0 nothing, 1 / 2 dictionary, 3 / 4 prefix ? */
+static int decodes_with(const unsigned char* f, size_t n, const unsigned char* want, size_t wantLen, int magicless, int with) {
+    size_t r;
+    ZSTD_DCtx_reset(UD, ZSTD_reset_session_and_parameters);
+    ZSTD_DCtx_setParameter(UD, ZSTD_d_format, magicless ? ZSTD_f_zstd1_magicless : ZSTD_f_zstd1);
+    ZSTD_DCtx_setParameter(UD, ZSTD_d_windowLogMax, 31);
+    if (with == 1 || with == 2) ZSTD_DCtx_refDDict(UD, DDICT[with]);
+    if (with == 3 || with == 4) ZSTD_DCtx_refPrefix(UD, PFX[with - 2], sizeof(PFX[0]));
+    r = ZSTD_decompressDCtx(UD, decBuf, outCap, f, n);
+    return !ZSTD_isError(r) && r == wantLen && (wantLen == 0 || !memcmp(decBuf, want, wantLen));
+}
+
+static size_t parse_nums(const char* p, long long* v, unsigned long long* u, int max) {
+    int n = 0;
+    while (n < max) { char* e; while (*p == ' ') p++; if (!*p || *p == '\n') break;
+        if (*p == '-') { v[n] = strtoll(p, &e, 10); u[n] = (unsigned long long)v[n]; } else { u[n] = strtoull(p, &e, 10); v[n] = (long long)u[n]; }
+        if (e == p) break; p = e; n++; }
+    return (size_t)n;
+}
+
 int main(void) {
     static char line[1 << 16];
     size_t i;
     cws = malloc(cwsSize); dws = calloc(1, dwsSize); outb = malloc(outCap); sout[0] = malloc(outCap); sout[1] = malloc(outCap);
-    if (!cws || !dws || !outb || !sout[0] || !sout[1]) die("malloc");
+    lastFrame[0] = malloc(outCap); lastFrame[1] = malloc(outCap); expectBuf = malloc(outCap); decBuf = malloc(outCap);
+    if (!cws || !dws || !outb || !sout[0] || !sout[1] || !lastFrame[0] || !lastFrame[1] || !expectBuf || !decBuf) die("malloc");
     for (i = 0; i < sizeof(srcA); i++) srcA[i] = (unsigned char)("parameter interface "[i % 20]);
     for (i = 0; i < sizeof(srcB); i++) srcB[i] = (unsigned char)((i * 2654435761u) >> 24) & 0x3f;
     memset(garbage, 0x08, sizeof(garbage));   /* refused in both formats: wrong magic / reserved header bit */
-    {   /* a real dictionary (with a dictID) trained on synthetic samples */
-        size_t const ns = 400, ss = 120; size_t* sizes = malloc(ns * sizeof(size_t)); unsigned char* smp = malloc(ns * ss); size_t s, j; unsigned x = 12345;
-        for (s = 0; s < ns; s++) { sizes[s] = ss; for (j = 0; j < ss; j++) { x = x * 1103515245u + 12345u;
-            smp[s * ss + j] = (j % 24 < 16) ? (unsigned char)("key=value;zstd-dict"[j % 19]) : (unsigned char)('a' + ((x >> 16) % 6)); } }
-        dictSize = ZDICT_trainFromBuffer(dictBuf, sizeof(dictBuf), smp, sizes, (unsigned)ns);
-        if (ZDICT_isError(dictSize)) die("dictionary training failed");
-        dictID = ZDICT_getDictID(dictBuf, dictSize);
-        if (dictID == 0) die("dictionary without id");
-        free(sizes); free(smp);
-        cdict = ZSTD_createCDict(dictBuf, dictSize, 1); ddict = ZSTD_createDDict(dictBuf, dictSize);
-        if (!cdict || !ddict) die("cdict/ddict");
+    {   /* two real dictionaries (with a dictID) trained on synthetic samples of different alphabets */
+        int which;
+        for (which = 1; which <= 2; which++) {
+            size_t const ns = 400, ss = 120; size_t* sizes = malloc(ns * sizeof(size_t)); unsigned char* smp = malloc(ns * ss); size_t s, j;
+            unsigned x = which == 1 ? 12345 : 987654321u; unsigned char* const dst = which == 1 ? dictBuf : dictBuf2; size_t dsz;
+            const char* const pat = which == 1 ? "key=value;zstd-dict" : "<tag attr='q'/>\t#$%";
+            for (s = 0; s < ns; s++) { sizes[s] = ss; for (j = 0; j < ss; j++) { x = x * 1103515245u + 12345u;
+                smp[s * ss + j] = (j % 24 < 16) ? (unsigned char)(pat[j % 19]) : (unsigned char)((which == 1 ? 'a' : 'P') + ((x >> 16) % 6)); } }
+            dsz = ZDICT_trainFromBuffer(dst, sizeof(dictBuf), smp, sizes, (unsigned)ns);
+            if (ZDICT_isError(dsz)) die("dictionary training failed");
+            DICT[which] = dst; DICTSZ[which] = dsz; DICTID[which] = ZDICT_getDictID(dst, dsz);
+            if (DICTID[which] == 0) die("dictionary without id");
+            CDICT[which] = ZSTD_createCDict(dst, dsz, 1); DDICT[which] = ZSTD_createDDict(dst, dsz);
+            if (!CDICT[which] || !DDICT[which]) die("cdict/ddict");
+            free(sizes); free(smp);
+        }
+        if (DICTID[1] == DICTID[2]) die("the two dictionaries share their id");
+        dictSize = DICTSZ[1]; dictSize2 = DICTSZ[2]; dictID = DICTID[1]; cdict = CDICT[1]; ddict = DDICT[1]; (void)dictSize2;
+    }
+    {   /* two prefixes of incompressible bytes; the sources of the compression calls quote both dictionaries and both prefixes,
+           so that a frame compressed with one of them does not decode without it */
+        unsigned x = 2463534242u; int k; size_t j;
+        for (k = 1; k <= 2; k++) for (j = 0; j < sizeof(PFX[0]); j++) { x ^= x << 13; x ^= x >> 17; x ^= x << 5; PFX[k][j] = (unsigned char)(x >> 11); }
+        for (j = 0; j < 25; j++) { srcA[j] = DICT[1][DICTSZ[1] - 60 + j]; srcA[25 + j] = DICT[2][DICTSZ[2] - 60 + j]; srcA[50 + j] = PFX[1][900 + j]; srcA[75 + j] = PFX[2][900 + j]; }
+        for (j = 0; j < 75; j++) { srcB[j] = DICT[1][DICTSZ[1] - 160 + j]; srcB[75 + j] = DICT[2][DICTSZ[2] - 160 + j]; srcB[150 + j] = PFX[1][800 + j]; srcB[225 + j] = PFX[2][800 + j]; }
     }
     {   int f; for (f = 0; f < 2; f++) { ZSTD_CCtx* c = ZSTD_createCCtx(); ZSTD_CCtx_setParameter(c, ZSTD_c_format, f);
             Fsize[f] = ZSTD_compress2(c, F[f], sizeof(F[f]), srcA, sizeof(srcA)); if (ZSTD_isError(Fsize[f])) die("F"); ZSTD_freeCCtx(c); } }
@@ -117,49 +191,69 @@ int main(void) {
             if (k == 4) ZSTD_CCtx_refCDict(c, cdict);
             Gsize[k] = ZSTD_compress2(c, G[k], sizeof(G[k]), srcB, sizeof(srcB)); if (ZSTD_isError(Gsize[k])) die("G"); ZSTD_freeCCtx(c); }
         G[3][Gsize[3] - 1] ^= 0x55; }
+    UD = ZSTD_createDCtx(); if (!UD) die("UD");
+    {   /* FD0..4: srcB[0..300) compressed with nothing / dictionary 1 / dictionary 2 / prefix 1 / prefix 2 (checksum, content size) */
+        int k; for (k = 0; k < 5; k++) { ZSTD_CCtx* c = ZSTD_createCCtx(); int w;
+            ZSTD_CCtx_setParameter(c, ZSTD_c_checksumFlag, 1);
+            if (k == 1 || k == 2) ZSTD_CCtx_refCDict(c, CDICT[k]);
+            if (k >= 3) ZSTD_CCtx_refPrefix(c, PFX[k - 2], sizeof(PFX[0]));
+            FDsize[k] = ZSTD_compress2(c, FD[k], sizeof(FD[k]), srcB, 300); if (ZSTD_isError(FDsize[k])) die("FD"); ZSTD_freeCCtx(c);
+            for (w = 0; w < 5; w++) if (decodes_with(FD[k], FDsize[k], srcB, 300, 0, w) != (w == k || k == 0)) die("fixture frame FD does not need exactly its own dictionary"); } }
     fresh();
     while (fgets(line, sizeof(line), stdin)) {
-        char op[32]; long long a = 0, b = 0, c3 = 0; int n;
+        char op[32]; long long v[12]; unsigned long long u[12]; long long a = 0, b = 0, c3 = 0; size_t n; int oplen = 0;
         if (!strncmp(line, "cids", 4) || !strncmp(line, "dids", 4)) {
             int* ids = line[0] == 'c' ? cids : dids; int cnt = 0; char* p = line + 4;
-            for (;;) { char* e; long v = strtol(p, &e, 10); if (e == p) break; if (cnt < MAXIDS) ids[cnt++] = (int)v; p = e; }
+            for (;;) { char* e; long vv = strtol(p, &e, 10); if (e == p) break; if (cnt < MAXIDS) ids[cnt++] = (int)vv; p = e; }
             if (line[0] == 'c') ncids = cnt; else ndids = cnt;
             continue;
         }
-        n = sscanf(line, "%31s %lld %lld %lld", op, &a, &b, &c3);
-        if (n < 1) continue;
+        if (sscanf(line, "%31s%n", op, &oplen) < 1) continue;
+        memset(v, 0, sizeof(v)); memset(u, 0, sizeof(u));
+        n = parse_nums(line + oplen, v, u, 12); (void)n;
+        a = v[0]; b = v[1]; c3 = v[2];
         if (!strcmp(op, "new")) { fresh(); printf("ok\n"); }
         else if (!strcmp(op, "nop")) printf("ok\n");
         else if (!strcmp(op, "cbounds")) { ZSTD_bounds bd = ZSTD_cParam_getBounds((ZSTD_cParameter)a);
             if (ZSTD_isError(bd.error)) printf("%s\n", cls(bd.error)); else printf("ok %d %d\n", bd.lowerBound, bd.upperBound); }
         else if (!strcmp(op, "dbounds")) { ZSTD_bounds bd = ZSTD_dParam_getBounds((ZSTD_dParameter)a);
             if (ZSTD_isError(bd.error)) printf("%s\n", cls(bd.error)); else printf("ok %d %d\n", bd.lowerBound, bd.upperBound); }
+        else if (!strcmp(op, "fixture")) printf("ok %u %u %u %u\n", (unsigned)DICTSZ[1], (unsigned)DICTSZ[2], (unsigned)CDICT[1]->dictContentSize, (unsigned)CDICT[2]->dictContentSize);
         else if (op[0] == 'c') {
             ZSTD_CCtx* c = C[a & 1]; int const o = (int)(a & 1);
             if (!strcmp(op, "cset")) printf("%s\n", cls(ZSTD_CCtx_setParameter(c, (ZSTD_cParameter)b, (int)c3)));
-            else if (!strcmp(op, "cget")) { int v = 0; size_t const r = ZSTD_CCtx_getParameter(c, (ZSTD_cParameter)b, &v); printf("%s %d\n", cls(r), ZSTD_isError(r) ? 0 : v); }
-            else if (!strcmp(op, "creset")) printf("%s\n", cls(ZSTD_CCtx_reset(c, (ZSTD_ResetDirective)b)));
+            else if (!strcmp(op, "cget")) { int vv = 0; size_t const r = ZSTD_CCtx_getParameter(c, (ZSTD_cParameter)b, &vv); printf("%s %d\n", cls(r), ZSTD_isError(r) ? 0 : vv); }
+            else if (!strcmp(op, "creset")) { size_t const r = ZSTD_CCtx_reset(c, (ZSTD_ResetDirective)b); if (!cmid(c)) { broken[o] = 0; fedBytes[o] = 0; soutPos[o] = 0; } printf("%s\n", cls(r)); }
             else if (!strcmp(op, "cbegin")) {
-                if (!cheap(c, o) || (cmid(c) ? !buffered_applied(c) : !buffered_req(c))) printf("skip\n");
-                else { ZSTD_inBuffer in = { srcA, sizeof(srcA), 0 }; ZSTD_outBuffer out = { sout[o], outCap, soutPos[o] };
-                    size_t const r = ZSTD_compressStream2(c, &out, &in, ZSTD_e_continue); soutPos[o] = out.pos;
+                if (!cheap(c, o) || (cmid(c) ? (!buffered_applied(c) || broken[o]) : !buffered_req(c))) printf("skip\n");
+                else if (c->pledgedSrcSizePlusOne != 0 && (cmid(c) ? fedBytes[o] : 0) + sizeof(srcA) > c->pledgedSrcSizePlusOne - 1) printf("skip\n");   /* feeding beyond the pledge: see `cover` */
+                else if (!cmid(c) && cgetv(c, ZSTD_c_nbWorkers) > 0 && (c->cdict || c->localDict.dict)
+                         && (c->pledgedSrcSizePlusOne == 0 || c->pledgedSrcSizePlusOne - 1 > ZSTDMT_JOBSIZE_MIN)) printf("skip\n");   /* multithreaded frame with a CDict: the job parameters depend on the CDict's tables (not modelled) */
+                else { ZSTD_inBuffer in = { srcA, sizeof(srcA), 0 }; ZSTD_outBuffer out; size_t r;
+                    if (!cmid(c)) { soutPos[o] = 0; fedBytes[o] = 0; }
+                    out.dst = sout[o]; out.size = outCap; out.pos = soutPos[o];
+                    r = ZSTD_compressStream2(c, &out, &in, ZSTD_e_continue); soutPos[o] = out.pos;
+                    if (!ZSTD_isError(r)) fedBytes[o] += in.pos;
                     printf("%s\n", ZSTD_isError(r) ? "err" : (in.pos == in.size ? "ok" : "err partial")); } }
             else if (!strcmp(op, "cend")) {
-                if (!cheap(c, o) || (cmid(c) ? !buffered_applied(c) : !buffered_req(c))) printf("skip\n");
-                else { int const known = !cmid(c); ZSTD_inBuffer in = { srcA, 0, 0 }; ZSTD_outBuffer out = { sout[o], outCap, soutPos[o] };
-                    size_t const r = ZSTD_compressStream2(c, &out, &in, ZSTD_e_end); (void)known;
-                    if (ZSTD_isError(r) || r != 0) printf("err %s\n", ZSTD_isError(r) ? ZSTD_getErrorName(r) : "unfinished");
-                    else print_hdr("ok", sout[o], out.pos);
-                    soutPos[o] = 0; } }
+                if (!cheap(c, o) || (cmid(c) ? (!buffered_applied(c) || broken[o]) : !buffered_req(c))) printf("skip\n");
+                else { ZSTD_inBuffer in = { srcA, 0, 0 }; ZSTD_outBuffer out; size_t r;
+                    if (!cmid(c)) { soutPos[o] = 0; fedBytes[o] = 0; }
+                    out.dst = sout[o]; out.size = outCap; out.pos = soutPos[o];
+                    r = ZSTD_compressStream2(c, &out, &in, ZSTD_e_end);
+                    if (ZSTD_isError(r) || r != 0) { printf("err %s\n", ZSTD_isError(r) ? ZSTD_getErrorName(r) : "unfinished"); if (cmid(c)) broken[o] = 1; }
+                    else { print_hdr("ok", sout[o], out.pos); remember(o, sout[o], out.pos, 0, fedBytes[o]); }
+                    soutPos[o] = 0; if (!cmid(c)) fedBytes[o] = 0; } }
             else if (!strcmp(op, "cframe")) {
                 if (!cheap(c, o)) printf("skip\n");
-                else { size_t const r = ZSTD_compress2(c, outb, outCap, srcB, 300); soutPos[o] = 0;
-                    if (ZSTD_isError(r)) printf("err %s\n", ZSTD_getErrorName(r)); else print_hdr("ok", outb, r); } }
+                else { size_t const r = ZSTD_compress2(c, outb, outCap, srcB, 300); soutPos[o] = 0; broken[o] = 0; fedBytes[o] = 0;
+                    if (ZSTD_isError(r)) printf("err %s\n", ZSTD_getErrorName(r)); else { print_hdr("ok", outb, r); remember(o, outb, r, 1, 300); } } }
             else if (!strcmp(op, "cfxwin")) {   /* effect: the frame of a 5000-byte input shows the window in force */
                 if (!cheap(c, o)) printf("skip\n");
-                else { size_t const r = ZSTD_compress2(c, outb, outCap, srcB, sizeof(srcB)); soutPos[o] = 0;
+                else { size_t const r = ZSTD_compress2(c, outb, outCap, srcB, sizeof(srcB)); soutPos[o] = 0; broken[o] = 0; fedBytes[o] = 0;
                     if (ZSTD_isError(r)) printf("err %s\n", ZSTD_getErrorName(r));
                     else { ZSTD_frameHeader h; int const magicless = !(r >= 4 && MEM_readLE32(outb) == ZSTD_MAGICNUMBER);
+                        remember(o, outb, r, 1, sizeof(srcB));
                         if (ZSTD_getFrameHeader_advanced(&h, outb, r, magicless ? ZSTD_f_zstd1_magicless : ZSTD_f_zstd1) != 0) printf("err hdr\n");
                         else printf("ok %d %d %d %d %llu\n", (int)h.checksumFlag, h.frameContentSize != ZSTD_CONTENTSIZE_UNKNOWN, h.dictID != 0, magicless, (unsigned long long)h.windowSize); } } }
             else if (!strcmp(op, "cpledge")) {   /* direct check: a one-shot call must not pledge a size for the next streamed frame */
@@ -171,39 +265,79 @@ int main(void) {
                     r = ZSTD_compressStream2(c, &out, &in, ZSTD_e_continue);
                     if (!ZSTD_isError(r)) r = ZSTD_compressStream2(c, &out, &in2, ZSTD_e_end);
                     if (ZSTD_isError(r)) printf("err stream %s\n", ZSTD_getErrorName(r)); else print_hdr("ok", outb, out.pos); }
-                ZSTD_CCtx_reset(c, ZSTD_reset_session_only); }
+                ZSTD_CCtx_reset(c, ZSTD_reset_session_only); broken[o] = 0; fedBytes[o] = 0; }
+            else if (!strcmp(op, "cover")) {   /* direct check: pledge b bytes, feed more than that, end: one of the calls must fail with srcSize_wrong */
+                size_t r = ZSTD_CCtx_reset(c, ZSTD_reset_session_only); size_t r1, r2 = 0, r3 = 0; broken[o] = 0; fedBytes[o] = 0;
+                r1 = ZSTD_CCtx_setPledgedSrcSize(c, (unsigned long long)b); (void)r;
+                if (!cheap(c, o) || !buffered_req(c)) { ZSTD_CCtx_reset(c, ZSTD_reset_session_only); printf("skip\n"); }
+                else { ZSTD_inBuffer in = { srcB, (size_t)c3, 0 }; ZSTD_outBuffer out = { outb, outCap, 0 }; ZSTD_inBuffer in2 = { srcB, 0, 0 };
+                    r2 = ZSTD_compressStream2(c, &out, &in, ZSTD_e_continue);
+                    if (!ZSTD_isError(r2)) r3 = ZSTD_compressStream2(c, &out, &in2, ZSTD_e_end);
+                    printf("ok %s %s %s\n", cls(r1), ZSTD_isError(r2) ? ZSTD_getErrorName(r2) : "fed", ZSTD_isError(r2) ? "-" : ZSTD_isError(r3) ? ZSTD_getErrorName(r3) : (r3 == 0 ? "ended" : "unfinished"));
+                    ZSTD_CCtx_reset(c, ZSTD_reset_session_only); } }
             else if (!strcmp(op, "cfail")) {
                 if (!cheap(c, o)) printf("skip\n");
-                else { size_t const r = ZSTD_compress2(c, outb, 1, srcB, 300); soutPos[o] = 0; printf("%s\n", ZSTD_isError(r) ? "err" : "ok"); } }
+                else { size_t const r = ZSTD_compress2(c, outb, 1, srcB, 300); soutPos[o] = 0; broken[o] = 0; fedBytes[o] = 0; printf("%s\n", ZSTD_isError(r) ? "err" : "ok"); } }
             else if (!strcmp(op, "cbad")) { ZSTD_inBuffer in = { srcA, 10, 0 }; ZSTD_outBuffer out = { outb, 10, 11 };
                 size_t const r = ZSTD_compressStream2(c, &out, &in, ZSTD_e_continue); printf("%s\n", ZSTD_isError(r) ? "err" : "ok"); }
             else if (!strcmp(op, "csimple")) {
                 if (cmid(c)) printf("skip\n");
                 else { size_t const r = ZSTD_compressCCtx(c, outb, outCap, srcB, 300, 1);
-                    if (ZSTD_isError(r)) printf("err %s\n", ZSTD_getErrorName(r)); else print_hdr("ok", outb, r); } }
-            else if (!strcmp(op, "cload")) printf("%s\n", cls(ZSTD_CCtx_loadDictionary(c, b ? dictBuf : NULL, b ? dictSize : 0)));
-            else if (!strcmp(op, "crefcdict")) printf("%s\n", cls(ZSTD_CCtx_refCDict(c, b ? cdict : NULL)));
-            else if (!strcmp(op, "crefprefix")) printf("%s\n", cls(ZSTD_CCtx_refPrefix(c, b ? srcB : NULL, b ? 1000 : 0)));
+                    if (ZSTD_isError(r)) printf("err %s\n", ZSTD_getErrorName(r)); else { print_hdr("ok", outb, r); remember(o, outb, r, 1, 300); } } }
+            else if (!strcmp(op, "cload")) printf("%s\n", cls(ZSTD_CCtx_loadDictionary(c, b ? DICT[1 + (b == 2)] : NULL, b ? DICTSZ[1 + (b == 2)] : 0)));
+            else if (!strcmp(op, "crefcdict")) printf("%s\n", cls(ZSTD_CCtx_refCDict(c, b ? CDICT[1 + (b == 2)] : NULL)));
+            else if (!strcmp(op, "crefprefix")) printf("%s\n", cls(ZSTD_CCtx_refPrefix(c, b ? PFX[1 + (b == 2)] : NULL, b ? sizeof(PFX[0]) : 0)));
             else if (!strcmp(op, "capply")) printf("%s\n", cls(ZSTD_CCtx_setParametersUsingCCtxParams(c, P)));
             else if (!strcmp(op, "cvec")) { int k; printf("ok");
-                for (k = 0; k < ncids; k++) { int v = 0; size_t const r = ZSTD_CCtx_getParameter(c, (ZSTD_cParameter)cids[k], &v); if (ZSTD_isError(r)) printf(" E"); else printf(" %d", v); }
+                for (k = 0; k < ncids; k++) { int vv = 0; size_t const r = ZSTD_CCtx_getParameter(c, (ZSTD_cParameter)cids[k], &vv); if (ZSTD_isError(r)) printf(" E"); else printf(" %d", vv); }
                 printf(" %d %d\n", cmid(c), cdictcode(c)); }
+            /* ---- round 2 ---- */
+            else if (!strcmp(op, "csetcp")) { ZSTD_compressionParameters cp; cp.windowLog = (unsigned)v[1]; cp.chainLog = (unsigned)v[2]; cp.hashLog = (unsigned)v[3];
+                cp.searchLog = (unsigned)v[4]; cp.minMatch = (unsigned)v[5]; cp.targetLength = (unsigned)v[6]; cp.strategy = (ZSTD_strategy)v[7];
+                printf("%s\n", cls(ZSTD_CCtx_setCParams(c, cp))); }
+            else if (!strcmp(op, "csetfp")) { ZSTD_frameParameters fp; fp.contentSizeFlag = (int)v[1]; fp.checksumFlag = (int)v[2]; fp.noDictIDFlag = (int)v[3];
+                printf("%s\n", cls(ZSTD_CCtx_setFParams(c, fp))); }
+            else if (!strcmp(op, "csetp")) { ZSTD_parameters pp; pp.cParams.windowLog = (unsigned)v[1]; pp.cParams.chainLog = (unsigned)v[2]; pp.cParams.hashLog = (unsigned)v[3];
+                pp.cParams.searchLog = (unsigned)v[4]; pp.cParams.minMatch = (unsigned)v[5]; pp.cParams.targetLength = (unsigned)v[6]; pp.cParams.strategy = (ZSTD_strategy)v[7];
+                pp.fParams.contentSizeFlag = (int)v[8]; pp.fParams.checksumFlag = (int)v[9]; pp.fParams.noDictIDFlag = (int)v[10];
+                printf("%s\n", cls(ZSTD_CCtx_setParams(c, pp))); }
+            else if (!strcmp(op, "cpl")) printf("%s\n", cls(ZSTD_CCtx_setPledgedSrcSize(c, u[1])));
+            else if (!strcmp(op, "cxvec")) printf("ok %llu %d %d\n", (unsigned long long)c->pledgedSrcSizePlusOne, c->cParamsChanged != 0, cdictwhich(c));
+            else if (!strcmp(op, "cavec")) { int k; printf("ok");
+                for (k = 0; k < ncids; k++) { int vv = 0; size_t const r = ZSTD_CCtxParams_getParameter(&c->appliedParams, (ZSTD_cParameter)cids[k], &vv); if (ZSTD_isError(r)) printf(" E"); else printf(" %d", vv); }
+                printf("\n"); }
+            else if (!strcmp(op, "cmvec")) { int lv = 0; unsigned cp[7];
+                if (!c->mtctx || !c16_mt_params(c->mtctx, &lv, cp)) printf("ok none\n");
+                else printf("ok %d %u %u %u %u %u %u %u\n", lv, cp[0], cp[1], cp[2], cp[3], cp[4], cp[5], cp[6]); }
+            else if (!strcmp(op, "cuse")) {   /* what the last frame produced by this context says and needs */
+                if (!haveLast[o]) printf("ok none\n");
+                else { ZSTD_frameHeader h; const unsigned char* f = lastFrame[o]; size_t const fn = lastSize[o]; int w, mask = 0; size_t wantLen = lastSrcLen[o]; const unsigned char* want;
+                    int const magicless = !(fn >= 4 && MEM_readLE32(f) == ZSTD_MAGICNUMBER);
+                    if (lastSrcKind[o] == 0) { size_t q; for (q = 0; q + sizeof(srcA) <= wantLen && q + sizeof(srcA) <= outCap; q += sizeof(srcA)) memcpy(expectBuf + q, srcA, sizeof(srcA)); want = expectBuf; } else want = srcB;
+                    if (ZSTD_getFrameHeader_advanced(&h, f, fn, magicless ? ZSTD_f_zstd1_magicless : ZSTD_f_zstd1) != 0) printf("err hdr\n");
+                    else { for (w = 0; w < 5; w++) if (decodes_with(f, fn, want, wantLen, magicless, w)) mask |= 1 << w;
+                        if (h.frameContentSize == ZSTD_CONTENTSIZE_UNKNOWN) printf("ok -1 %d %d\n", dictidx(h.dictID), mask);
+                        else printf("ok %llu %d %d\n", (unsigned long long)h.frameContentSize, dictidx(h.dictID), mask); } } }
             else die("unknown c op");
         }
         else if (op[0] == 'p') {
             if (!strcmp(op, "pset")) printf("%s\n", cls(ZSTD_CCtxParams_setParameter(P, (ZSTD_cParameter)a, (int)b)));
-            else if (!strcmp(op, "pget")) { int v = 0; size_t const r = ZSTD_CCtxParams_getParameter(P, (ZSTD_cParameter)a, &v); printf("%s %d\n", cls(r), ZSTD_isError(r) ? 0 : v); }
+            else if (!strcmp(op, "pget")) { int vv = 0; size_t const r = ZSTD_CCtxParams_getParameter(P, (ZSTD_cParameter)a, &vv); printf("%s %d\n", cls(r), ZSTD_isError(r) ? 0 : vv); }
             else if (!strcmp(op, "preset")) printf("%s\n", cls(ZSTD_CCtxParams_reset(P)));
             else if (!strcmp(op, "pinit")) printf("%s\n", cls(ZSTD_CCtxParams_init(P, (int)a)));
+            else if (!strcmp(op, "pinitadv")) { ZSTD_parameters pp; pp.cParams.windowLog = (unsigned)v[0]; pp.cParams.chainLog = (unsigned)v[1]; pp.cParams.hashLog = (unsigned)v[2];
+                pp.cParams.searchLog = (unsigned)v[3]; pp.cParams.minMatch = (unsigned)v[4]; pp.cParams.targetLength = (unsigned)v[5]; pp.cParams.strategy = (ZSTD_strategy)v[6];
+                pp.fParams.contentSizeFlag = (int)v[7]; pp.fParams.checksumFlag = (int)v[8]; pp.fParams.noDictIDFlag = (int)v[9];
+                printf("%s\n", cls(ZSTD_CCtxParams_init_advanced(P, pp))); }
             else if (!strcmp(op, "pvec")) { int k; printf("ok");
-                for (k = 0; k < ncids; k++) { int v = 0; size_t const r = ZSTD_CCtxParams_getParameter(P, (ZSTD_cParameter)cids[k], &v); if (ZSTD_isError(r)) printf(" E"); else printf(" %d", v); }
+                for (k = 0; k < ncids; k++) { int vv = 0; size_t const r = ZSTD_CCtxParams_getParameter(P, (ZSTD_cParameter)cids[k], &vv); if (ZSTD_isError(r)) printf(" E"); else printf(" %d", vv); }
                 printf("\n"); }
             else die("unknown p op");
         }
         else if (op[0] == 'd') {
             ZSTD_DCtx* d = D[a & 1]; int const o = (int)(a & 1);
             if (!strcmp(op, "dset")) printf("%s\n", cls(ZSTD_DCtx_setParameter(d, (ZSTD_dParameter)b, (int)c3)));
-            else if (!strcmp(op, "dget")) { int v = 0; size_t const r = ZSTD_DCtx_getParameter(d, (ZSTD_dParameter)b, &v); printf("%s %d\n", cls(r), ZSTD_isError(r) ? 0 : v); }
+            else if (!strcmp(op, "dget")) { int vv = 0; size_t const r = ZSTD_DCtx_getParameter(d, (ZSTD_dParameter)b, &vv); printf("%s %d\n", cls(r), ZSTD_isError(r) ? 0 : vv); }
             else if (!strcmp(op, "dreset")) { printf("%s\n", cls(ZSTD_DCtx_reset(d, (ZSTD_ResetDirective)b))); dbegan[o] = 0; }
             else if (!strcmp(op, "dmaxwin")) printf("%s\n", cls(ZSTD_DCtx_setMaxWindowSize(d, (size_t)(unsigned long long)b)));
             else if (!strcmp(op, "dbegin") || !strcmp(op, "dbad") || !strcmp(op, "dframe")) {
@@ -232,10 +366,49 @@ int main(void) {
                     ZSTD_DCtx_reset(d, ZSTD_reset_session_only); dbegan[o] = 0; } }
             else if (!strcmp(op, "dbadcall")) { ZSTD_inBuffer in = { garbage, 4, 5 }; ZSTD_outBuffer out = { outb, outCap, 0 };
                 size_t const r = ZSTD_decompressStream(d, &out, &in); printf("%s\n", ZSTD_isError(r) ? "err" : "ok"); }
-            else if (!strcmp(op, "drefddict")) printf("%s\n", cls(ZSTD_DCtx_refDDict(d, b ? ddict : NULL)));
+            else if (!strcmp(op, "drefddict")) printf("%s\n", cls(ZSTD_DCtx_refDDict(d, b ? DDICT[1 + (b == 2)] : NULL)));
             else if (!strcmp(op, "dvec")) { int k; printf("ok");
-                for (k = 0; k < ndids; k++) { int v = 0; size_t const r = ZSTD_DCtx_getParameter(d, (ZSTD_dParameter)dids[k], &v); if (ZSTD_isError(r)) printf(" E"); else printf(" %d", v); }
+                for (k = 0; k < ndids; k++) { int vv = 0; size_t const r = ZSTD_DCtx_getParameter(d, (ZSTD_dParameter)dids[k], &vv); if (ZSTD_isError(r)) printf(" E"); else printf(" %d", vv); }
                 printf(" %llu %d %d\n", c16_d_maxwin(d), c16_d_stage(d), c16_d_hasdict(d)); }
+            /* ---- round 2 ---- */
+            else if (!strcmp(op, "dload")) {
+                if (o == 1 && b) printf("skip\n");     /* a static dctx cannot copy (its allocator is uninitialised memory: reported separately) */
+                else printf("%s\n", cls(ZSTD_DCtx_loadDictionary(d, b ? DICT[1 + (b == 2)] : NULL, b ? DICTSZ[1 + (b == 2)] : 0))); }
+            else if (!strcmp(op, "drefprefix")) {
+                if (o == 1 && b) printf("skip\n");     /* refPrefix allocates a (by-reference) DDict */
+                else printf("%s\n", cls(ZSTD_DCtx_refPrefix(d, b ? PFX[1 + (b == 2)] : NULL, b ? sizeof(PFX[0]) : 0))); }
+            else if (!strcmp(op, "ddec") || !strcmp(op, "ddec1")) {   /* decode fixture frame b (streaming, whole frame in one call / ZSTD_decompressDCtx), then reset the session */
+                if (c16_d_stage(d)) printf("skip\n");
+                else { int const k = (int)(((b % 5) + 5) % 5); size_t r; size_t produced;
+                    if (op[4] == '1') { r = ZSTD_decompressDCtx(d, outb, outCap, FD[k], FDsize[k]); produced = ZSTD_isError(r) ? 0 : r; if (!ZSTD_isError(r)) r = 0; }
+                    else { ZSTD_inBuffer in = { FD[k], FDsize[k], 0 }; ZSTD_outBuffer out = { outb, outCap, 0 }; r = ZSTD_decompressStream(d, &out, &in); produced = out.pos; }
+                    if (!ZSTD_isError(r) && r == 0 && produced == 300 && !memcmp(outb, srcB, 300)) printf("ok\n");
+                    else printf("err %s\n", ZSTD_isError(r) ? ZSTD_getErrorName(r) : "wrong content");
+                    ZSTD_DCtx_reset(d, ZSTD_reset_session_only); dbegan[o] = 0; } }
+            else if (!strcmp(op, "ddecm")) {   /* one-shot ZSTD_decompressDCtx of the concatenation of three fixture frames */
+                if (c16_d_stage(d)) printf("skip\n");
+                else { size_t pos = 0, r; int q;
+                    for (q = 1; q <= 3; q++) { int const k = (int)(((v[q] % 5) + 5) % 5); memcpy(expectBuf + pos, FD[k], FDsize[k]); pos += FDsize[k]; }
+                    r = ZSTD_decompressDCtx(d, outb, outCap, expectBuf, pos);
+                    if (!ZSTD_isError(r) && r == 900 && !memcmp(outb, srcB, 300) && !memcmp(outb + 300, srcB, 300) && !memcmp(outb + 600, srcB, 300)) printf("ok\n");
+                    else printf("err %s\n", ZSTD_isError(r) ? ZSTD_getErrorName(r) : "wrong content");
+                    ZSTD_DCtx_reset(d, ZSTD_reset_session_only); dbegan[o] = 0; } }
+            else if (!strcmp(op, "ddecu")) {   /* ZSTD_decompress_usingDDict(dctx, explicit DDict b (0 = NULL), fixture frame c3) */
+                if (c16_d_stage(d)) printf("skip\n");
+                else { int const k = (int)(((c3 % 5) + 5) % 5);
+                    size_t const r = ZSTD_decompress_usingDDict(d, outb, outCap, FD[k], FDsize[k], b ? DDICT[1 + (b == 2)] : NULL);
+                    if (!ZSTD_isError(r) && r == 300 && !memcmp(outb, srcB, 300)) printf("ok\n");
+                    else printf("err %s\n", ZSTD_isError(r) ? ZSTD_getErrorName(r) : "wrong content");
+                    ZSTD_DCtx_reset(d, ZSTD_reset_session_only); dbegan[o] = 0; } }
+            else if (!strcmp(op, "dxvec")) {   /* dictUses, kind of the active dictionary (0 none, 1 referenced DDict, 2 local copy, 3 prefix), which one, set membership */
+                int const uses = c16_d_dictuses(d); int kind = 0, which = 0; const void* dd = c16_d_ddict(d);
+                if (dd) { int k; const void* content = c16_d_ddict_content(d); size_t const csz = c16_d_ddict_size(d);
+                    for (k = 1; k <= 2; k++) {
+                        if (dd == (const void*)DDICT[k]) { kind = 1; which = k; }
+                        else if (content == (const void*)PFX[k]) { kind = 3; which = k; }
+                        else if (c16_d_ddict_is_local(d) && kind == 0 && csz <= DICTSZ[k] && csz > 0 && !memcmp(content, DICT[k] + (DICTSZ[k] - csz), csz)) { kind = 2; which = k; } }
+                    if (kind == 0) { kind = 9; which = 9; } }
+                printf("ok %d %d %d %d %d %d\n", uses, kind, which, c16_d_set_allocated(d), c16_d_set_has(d, DICTID[1]), c16_d_set_has(d, DICTID[2])); }
             else die("unknown d op");
         }
         else die("unknown op");
